@@ -529,8 +529,9 @@ pub fn eval_unit_name(
                     left_value.pow(right),
                 ))
             }
-            BinOpType::ShiftL => todo!(),
-            BinOpType::ShiftR => todo!(),
+            BinOpType::ShiftL | BinOpType::ShiftR => Err(QueryError::generic(
+                "Shifts are not allowed in the right hand side of conversions".to_string(),
+            )),
             BinOpType::Mod => {
                 let (left_unit, left) = eval_unit_name(ctx, &binop.left)?;
                 let (right_unit, _right) = eval_unit_name(ctx, &binop.right)?;
